@@ -875,21 +875,24 @@ def _f24(sub, recipe):
     return any(o.get("k") == "sub" and any(o2.get("k") == "m" for o2 in G6.walk_ops(o.get("body"))) for o in _ops_of(recipe))
 
 
+def _f25(sub, recipe):
+    """merge_operations(_to_circuit_op): a measurement merged to the right lands behind / beside an op controlled by its key."""
+    row, x = recipe.get("row"), ((recipe.get("o") or {}).get("x") or {})
+    hit = (row == "merge_operations" and int(x.get("f", 0)) % 4 == 3) or (row == "merge_operations_to_circuit_op" and int(x.get("f", 0)) % 4 == 2)
+    if not hit:
+        return False
+    kinds = {o.get("k") for o in _ops_of(recipe)}
+    return "m" in kinds and "cc" in kinds
+
+
 KNOWN_FEATURES = {
-    "F24_drop_diagonal_subcircuit_measurement": _f24,
+    "F25_merge_moves_measurement_past_control": _f25,
     "F23_qubit_mapping_subcircuit_simple_manager": _f23,
     "F22_phxz_symbolized_symbols_in_subcircuit": _f22,
     "F21_phxz_symbolized_shared_symbol": _f21,
-    "F19_defer_measurements_repeated_key_order": _f19,
-    "F18_mm_gauge_drops_gateless_ops": _f18,
     "F17_unroll_greedy_earliest_order": _f17,
-    "F16_tagged_operation_commutes_default": _f16,
-    "F15_idle_moments_gauge_non_unitary_1q": _f15,
     "F13_dd_modifies_ignored_ops": _f13,
-    "F14_circuit_operation_unitary_zero_qubit_op": _f14,
-    "F1_condition_replace_key": _f1,
     "F7_dd_clifford_by_unitary": _f7,
-    "F12_eject_z_symbolic_iswap": _f12,
 }
 
 # ------------------------------------------------------------------------------------------- coverage bookkeeping
@@ -957,9 +960,9 @@ def uncovered():
 
 
 SUBCHECKS = [
-    SubCheck("unitary", _case("unitary"), oracle_general, quick=11000, thorough=300000, shards_quick=8, shards_thorough=16,
+    SubCheck("unitary", _case("unitary"), oracle_general, quick=11000, thorough=300000, shards_quick=10, shards_thorough=16,
              essential={"noncommuting": 0.3}),
-    SubCheck("records", _case("records"), oracle_general, quick=9000, thorough=200000, shards_quick=8, shards_thorough=16,
+    SubCheck("records", _case("records"), oracle_general, quick=9000, thorough=200000, shards_quick=10, shards_thorough=16,
              essential={"has_meas": 0.5}),
     SubCheck("qubit_management", _qm_case(), oracle_qubit_management, quick=700, thorough=25000, shards_quick=2, shards_thorough=8),
     SubCheck("sweeps", _sw_case(), oracle_sweeps, quick=1200, thorough=40000, shards_quick=2, shards_thorough=8),
